@@ -366,7 +366,7 @@ def step (st : State) (toks : List String) : Option (State × String) :=
     let k ← dbIdx snap; let d ← dbIdx dst; let keep ← parseKeep keep
     let r ← readers.toNat?
     if r = 0 ∨ r > 4 then none else
-    if ¬ ["plain", "mmap", "alt", "altmmap"].contains style then none else
+    if ¬ ["plain", "mmap", "alt", "altmmap", "tiny", "alttiny"].contains style then none else
     match st.snap k with
     | none => pure (st, "err no-snapshot")
     | some im =>
